@@ -7865,7 +7865,8 @@ class SFTPServer:
         if posixpath.isabs(oldpath):
             oldpath = self.map_path(oldpath)
         else:
-            newdir = posixpath.dirname(newpath)
+            # Use the directory the link will really be created in
+            newdir = posixpath.dirname(posixpath.normpath(newpath))
             abspath1 = self.map_path(posixpath.join(newdir, oldpath))
 
             mapped_newdir = self.map_path(newdir)
